@@ -47,7 +47,12 @@ def conforms(v, T):
             return False
         return all(conforms(k, args[0]) and conforms(x, args[1]) for k, x in v.items())
     if origin is ty.Sequence or getattr(origin, "__name__", "") == "Sequence":
-        if isinstance(v, (str, bytes)) or not isinstance(v, (list, tuple)):
+        if isinstance(v, str):
+            return False
+        if isinstance(v, (bytes, bytearray)):
+            # structurally a sequence of ints: conforms when every element does (an empty one vacuously, for any element type)
+            return all(conforms(e, args[0]) for e in v)
+        if not isinstance(v, (list, tuple)):
             return False
         return all(conforms(e, args[0]) for e in v)
     return isinstance(v, origin)
